@@ -32,6 +32,7 @@ func init() {
 		rtPkg + ".Assert":        rtAssert,
 		rtPkg + ".Tag":           rtTag,
 		rtPkg + ".Note":          rtNote,
+		rtPkg + ".Threads":       rtThreads,
 		rtPkg + ".AssertStatic":  rtAssertStatic,
 		rtPkg + ".Havoc":         rtHavoc,
 		rtPkg + ".NoAlias":       rtNoAlias,
@@ -89,6 +90,28 @@ func init() {
 			return a[0], nil
 		},
 		"sync/atomic.AddUint32": stubAtomicAdd32,
+		"sync/atomic.LoadUint32": func(ex *Exec, fn *ssa.Function, a []Value) (Value, *Panic) {
+			p := a[0].(*Ptr)
+			if p.IsNil() {
+				return nil, ex.runtimePanic("nil", "nil pointer in atomic.LoadUint32")
+			}
+			if w, ok := ex.sharedScalar(p); ok {
+				return ex.recordAccess("load", p, w, nil, true), nil
+			}
+			return p.base.get(p.idx), nil
+		},
+		"sync/atomic.StoreUint32": func(ex *Exec, fn *ssa.Function, a []Value) (Value, *Panic) {
+			p := a[0].(*Ptr)
+			if p.IsNil() {
+				return nil, ex.runtimePanic("nil", "nil pointer in atomic.StoreUint32")
+			}
+			if w, ok := ex.sharedScalar(p); ok {
+				ex.recordAccess("store", p, w, a[1].(*Term), true)
+				return nil, nil
+			}
+			p.base.set(p.idx, a[1]) // sanctioned writer
+			return nil, nil
+		},
 		"bytes.Repeat":          stubBytesRepeat,
 		"bytes.Equal":           stubBytesEqual,
 		"net.IPv4":              stubNetIPv4,
@@ -699,6 +722,10 @@ func stubAtomicAdd32(ex *Exec, fn *ssa.Function, args []Value) (Value, *Panic) {
 	p := args[0].(*Ptr)
 	if p.IsNil() {
 		return nil, ex.runtimePanic("nil", "nil pointer in atomic.AddUint32")
+	}
+	if w, ok := ex.sharedScalar(p); ok {
+		ex.atomicEvents++
+		return ex.recordAccess("add", p, w, args[1].(*Term), true), nil
 	}
 	old := p.base.get(p.idx).(*Term)
 	nv := ex.ts.Bin(OpAdd, old, args[1].(*Term))
